@@ -1,6 +1,7 @@
 #!/bin/sh
 # tools/run_all.sh [seeds...]   runs every registered quick check for each seed; prints one line per run
 cd "$(dirname "$0")/.."
+(cd lean && lake build MlModel 2>&1 | tail -1)
 SEEDS="${*:-0 1 2}"
 for p in $(python3 -c "import json; print(' '.join(c['property_id'] for c in json.load(open('MANIFEST.json'))['checks']))"); do
   for s in $SEEDS; do
